@@ -9,8 +9,11 @@ import (
 	"math"
 	"math/rand"
 	"os"
+	"runtime"
 	"strconv"
 	"strings"
+	"sync"
+	"sync/atomic"
 	"time"
 
 	libaudit "github.com/elastic/go-libaudit/v2"
@@ -1129,6 +1132,74 @@ func longLived(n int) string {
 	return st.bad
 }
 
+// parallelFirstRecords: the first records of one new event arrive from several goroutines at the same instant (a
+// multi-threaded receiver). Eight goroutines wait at a spin barrier and then each push one record of the same, not yet
+// buffered sequence number; the EOE follows once all have returned. The event must come out once, with all eight
+// records. Returns the first deviation ("" = none).
+type parStream struct {
+	mu   sync.Mutex
+	got  map[uint32][]int
+	more string
+}
+
+func (s *parStream) ReassemblyComplete(msgs []*auparse.AuditMessage) {
+	s.mu.Lock()
+	defer s.mu.Unlock()
+	if len(msgs) == 0 {
+		return
+	}
+	seq := msgs[0].Sequence
+	if _, dup := s.got[seq]; dup && s.more == "" {
+		s.more = fmt.Sprintf("event %d was delivered in more than one callback", seq)
+	}
+	s.got[seq] = append(s.got[seq], len(msgs))
+}
+func (s *parStream) EventsLost(int) {}
+
+func parallelFirstRecords(rounds int) string {
+	const G = 8
+	st := &parStream{got: map[uint32][]int{}}
+	r, err := libaudit.NewReassembler(64, time.Hour, st)
+	if err != nil {
+		return ""
+	}
+	defer r.Close()
+	for round := 0; round < rounds; round++ {
+		seq := uint32(5000 + round)
+		var ready, done sync.WaitGroup
+		var gate int32
+		ready.Add(G)
+		done.Add(G)
+		for g := 0; g < G; g++ {
+			go func(g int) {
+				defer done.Done()
+				m := &auparse.AuditMessage{RecordType: []auparse.AuditMessageType{tSYSCALL, tPATH, tCWD, tEXECVE}[g%4], Sequence: seq}
+				ready.Done()
+				for i := 0; atomic.LoadInt32(&gate) == 0; i++ {
+					if i > 5000 {
+						runtime.Gosched() // a loaded machine: do not hold a processor the releasing goroutine may need
+					}
+				}
+				r.PushMessage(m)
+			}(g)
+		}
+		ready.Wait()
+		atomic.StoreInt32(&gate, 1)
+		done.Wait()
+		r.PushMessage(&auparse.AuditMessage{RecordType: tEOE, Sequence: seq})
+		st.mu.Lock()
+		sizes, more := st.got[seq], st.more
+		st.mu.Unlock()
+		if more != "" {
+			return more
+		}
+		if len(sizes) != 1 || sizes[0] != G {
+			return fmt.Sprintf("round %d: %d goroutines each pushed one record of the new event %d at the same instant, then its EOE arrived: the callbacks for it carried %v records", round+1, G, seq, sizes)
+		}
+	}
+	return ""
+}
+
 // wideWindow fills a window of max with n events that never complete (timeout 1h) and reports at which event the first
 // delivery before Close happened (0 = none).
 func wideWindow(max, n int) (evictedAt int) {
@@ -1349,6 +1420,10 @@ func reasmFamily(ctx *Ctx) error {
 				Events int    `json:"events"`
 			} `json:"input"`
 		}
+		if json.Unmarshal(b, &rw) == nil && rw.Input.Kind == "parallel-first-records" {
+			fmt.Printf("first records of a new event from 8 goroutines at the same instant, 3000 rounds: %q (empty = each event delivered once with all its records)\n", parallelFirstRecords(3000))
+			return nil
+		}
 		if json.Unmarshal(b, &rw) == nil && rw.Input.Kind == "long-lived" {
 			fmt.Printf("%d consecutive events through one Reassembler: %q (empty = every event delivered once, alone, in order, no loss reported)\n", rw.Input.Events, longLived(rw.Input.Events))
 			return nil
@@ -1509,6 +1584,13 @@ func reasmFamily(ctx *Ctx) error {
 		libaudit.VerifYield = hook
 		guardLeave()
 		res.HistN("parallel rounds", sr.SoakRounds)
+		pin := map[string]interface{}{"kind": "parallel-first-records", "rounds": 1500}
+		guardEnter(pin)
+		bad := parallelFirstRecords(1500)
+		guardLeave()
+		if bad != "" {
+			res.Violate(common.Violation{Kind: "monitor", Clause: "C01, calls made by several goroutines at once: " + bad, Input: pin})
+		}
 		for _, v := range sr.Violations {
 			res.Violate(common.Violation{Kind: "monitor", Clause: "C01, calls made by several goroutines at once: " + v, Input: map[string]interface{}{"kind": "stress", "stress": cfg}})
 		}
